@@ -1,6 +1,7 @@
 package sim
 
 import (
+	"sort"
 	"context"
 	"encoding/json"
 	"errors"
@@ -66,6 +67,15 @@ func genC15(seed uint64, tier string) *C15Plan {
 			if g.Prob(0.2) {
 				r.Out = simkit.Pick(g, []string{"err", "err", "panic"})
 			}
+			// two requests of one episode that name the same branch in the same way
+			// get the same scripted outcome: the order in which their manager calls
+			// happen is the client's business, and replies are matched by message id
+			for _, prev := range e.Reqs {
+				if prev.Type == r.Type && prev.Commit == r.Commit && prev.Xid == r.Xid && prev.Branch == r.Branch && prev.Res == r.Res {
+					r.Status, r.Out = prev.Status, prev.Out
+					break
+				}
+			}
 			e.Reqs = append(e.Reqs, r)
 		}
 		p.Episodes = append(p.Episodes, e)
@@ -87,6 +97,15 @@ type c15RM struct {
 	script map[string][]C15Req
 }
 
+func keysOfScript(m map[string][]C15Req) []string {
+	var ks []string
+	for k, q := range m {
+		ks = append(ks, fmt.Sprintf("%s x%d", k, len(q)))
+	}
+	sort.Strings(ks)
+	return ks
+}
+
 func c15Key(commit bool, xid string, b int64, res string) string {
 	return fmt.Sprintf("%v|%s|%d|%s", commit, xid, b, res)
 }
@@ -102,6 +121,7 @@ func (m *c15RM) end(commit bool, r rm.BranchResource) (branch.BranchStatus, erro
 		m.script[k] = q[1:]
 	} else {
 		out = C15Req{Out: "unexpected"}
+		m.sim.Note("manager of branch type %d called with %s, which no request of the episode explains (scripted: %v)", m.bt, k, keysOfScript(m.script))
 	}
 	m.mu.Unlock()
 	// a sim point: the tape decides in which order concurrent managers finish
@@ -153,6 +173,10 @@ func runC15(t *testing.T, seed uint64, planJSON []byte, tier string) (res *Resul
 	res.Harness = runBubble(t, func(t *testing.T) {
 		w := bootRemoting(seed, tape, BootCfg{LoadBalance: "RandomLoadBalance", CommitRetry: 1, RollbackRetry: 1}, simnet.Config{FragmentPct: 15, ParkWrites: true})
 		sim, tc, net := w.Sim, w.TC, w.Net
+		stopYield, yok := startParkedYield(sim, seed, res)
+		if !yok {
+			return
+		}
 		sim.Known = loadKnown("C15")
 		sim.MaxStep = 1000000
 		sim.MaxTime = 1000 * time.Hour
@@ -282,6 +306,7 @@ func runC15(t *testing.T, seed uint64, planJSON []byte, tier string) (res *Resul
 			}
 		}
 		plan.Tape = tape.Rec
+		stopYield()
 		finishResult(res, sim)
 	})
 	res.Plan, _ = json.Marshal(plan)
